@@ -29,7 +29,7 @@ for mp in sorted(glob.glob("/verif/seeded/*/meta.json")):
         r, o = sh(f"{BIN} -property {p} -tier quick -dir {REPO} -verif /tmp/{TAG}-verif-{p}")
         return p, r, sorted(set(re.findall(r"^\s+(?:violated|undecided) ([A-Za-z0-9<>=\-]+)/", o, re.M)))
     caught = {}
-    with cf.ThreadPoolExecutor(max_workers=14) as ex:
+    with cf.ThreadPoolExecutor(max_workers=int(os.environ.get("SEED_WORKERS", "14"))) as ex:
         for p, r, rules in ex.map(one, CLAIMED):
             if r != 0:
                 caught[p] = rules
